@@ -156,6 +156,19 @@ func genC15(tier string, seed uint64, emit func(string)) {
 		emit(lifeLine(cfg, []string{"start", "open:t:g", "obs", "tlsbad:wrongcn", "obs", "tlsbad:intercn", "tlsbad:straycn", "tlsbad:wrongcn", "obs", "cmd:g",
 			"restart", "obs", "tlsbad:wrongcn", "obs", "open:t:h", "tlsbad:wrongcn", "obs", "cclose:h", "obs", "stop", "obs"}))
 	}
+	// ... and served connections that end in every way (orderly, reset - also underneath TLS -, unread replies, QUIT, a
+	// malformed frame, a partial request, a crashing request) next to one that stays: the registry follows
+	for _, cfg := range []string{"plain tls", "plain tls cn=client"} {
+		for _, k := range []string{"p", "t"} {
+			acts := []string{"start", "open:" + k + ":stay"}
+			for i, e := range []string{"rst", "cclose", "unread", "quit", "bad", "half", "halfcr", "halfbulk", "crash", "rst"} {
+				id := fmt.Sprintf("c%d", i)
+				acts = append(acts, "open:"+k+":"+id, "cmd:"+id, e+":"+id, "obs")
+			}
+			acts = append(acts, "cmd:stay", "obs", "stop", "obs")
+			emit(lifeLine(cfg, acts))
+		}
+	}
 	// forced schedules (hook H2): in each scenario the goroutines reaching the chosen schedule points are held back for
 	// 25 ms, so that the lifecycle call, the accept loops and the connection goroutines overtake each other in
 	// every order of those points - all single points and all pairs (quick), all subsets (thorough)
@@ -222,7 +235,8 @@ func oracleC15(cfg []string, results []string) string {
 			if v == "ok" {
 				served[f[2]] = true
 			}
-		case f[0] == "cclose" && len(f) == 2:
+		case (f[0] == "cclose" || f[0] == "rst" || f[0] == "unread" || f[0] == "quit" || f[0] == "bad" || f[0] == "half" || f[0] == "halfcr" || f[0] == "halfbulk" || f[0] == "crash") && len(f) == 2:
+			// however a connection ends, it is not served any more
 			delete(served, f[1])
 		case f[0] == "stop" || f[0] == "restart":
 			served = map[string]bool{}
